@@ -217,9 +217,13 @@ def register(ex):
     def x_throw(st, a, nm):
         ti = a[1]; tn = '?'
         if isinstance(ti, Ptr) and not isinstance(ti.obj, tuple) and ti.obj in st.mem: tn = st.mem[ti.obj].name.lstrip('@')
-        ex.do_throw(st, tn, '__cxa_throw')
+        ex.throw_exc(st, tn, a[0])
     X['__cxa_throw'] = x_throw
-    X['__cxa_rethrow'] = lambda st, a, nm: ex.do_throw(st, 'rethrow', nm)
+
+    def x_rethrow(st, a, nm):
+        if not st.caught: ex.ub(st, '__cxa_rethrow without a caught exception')
+        tinfo, obj = st.caught[-1]; ex.throw_exc(st, tinfo, obj)
+    X['__cxa_rethrow'] = x_rethrow
 
     def x_std_throw(st, a, nm):
         m = re.match(r'_ZSt\d+__throw_(\w+?)(_fmt)?(PKcz?|v|i|PKcmm|mm)?$', nm)
@@ -239,8 +243,18 @@ def register(ex):
         ex.ub(st, 'library assertion failed: ' + msg)
     X['__assert_fail'] = x_assert_fail; X['_ZSt21__glibcxx_assert_failPKciS0_S0_'] = x_assert_fail
 
-    X['__cxa_begin_catch'] = lambda st, a, nm: (_ for _ in ()).throw(Inconclusive('catch handler reached'))
-    X['__cxa_end_catch'] = lambda st, a, nm: None
+    def x_begin_catch(st, a, nm):
+        if st.exc is None: raise Inconclusive('__cxa_begin_catch without an exception in flight')
+        st.caught.append(st.exc); obj = st.exc[1]; st.exc = None; return obj
+    def x_end_catch(st, a, nm):
+        if st.caught: st.caught.pop()
+        return None
+    X['__cxa_begin_catch'] = x_begin_catch; X['__cxa_end_catch'] = x_end_catch; X['__cxa_get_exception_ptr'] = lambda st, a, nm: a[0]
+    # constructors / destructors of libstdc++'s exception classes live in libstdc++.so: the message is dropped
+    for cls in ('13runtime_error', '11logic_error', '12length_error', '12out_of_range', '16invalid_argument', '12domain_error', '11range_error', '14overflow_error',
+                '15underflow_error', '9exception', '9bad_alloc', '8bad_cast', '12system_error', '20bad_array_new_length', '17bad_function_call'):
+        for k in ('C1', 'C2', 'D0', 'D1', 'D2'):
+            ex.ext_prefix.append(('_ZNSt%s%sE' % (cls, k), lambda st, a, nm: None))
     X['__cxa_atexit'] = lambda st, a, nm: 0
     X['__cxa_thread_atexit'] = lambda st, a, nm: 0
     X['_ZNSt8ios_base4InitC1Ev'] = lambda st, a, nm: None
